@@ -49,6 +49,9 @@ pub struct ScriptSink {
     /// From this call index on every call fails with this answer.
     pub fail_from: Option<(usize, Ans)>,
     pub flushed_upto: usize,
+    /// Number of `write_vectored` calls received (0 on the pinned tree: the
+    /// builder only calls `write`).
+    pub vectored_calls: usize,
     interrupt_toggle: bool,
 }
 
@@ -61,6 +64,7 @@ impl ScriptSink {
             calls: vec![],
             fail_from: None,
             flushed_upto: 0,
+            vectored_calls: 0,
             interrupt_toggle: false,
         }
     }
@@ -75,8 +79,11 @@ impl ScriptSink {
     }
 }
 
-impl io::Write for ScriptSink {
-    fn write(&mut self, buf: &[u8]) -> io::Result<usize> {
+impl ScriptSink {
+    /// One write call over the logical buffer `buf` (for `write_vectored`
+    /// the concatenation of the slices: this sink really gathers, like a
+    /// file, pipe or socket does, and may stop anywhere inside any slice).
+    fn write_logical(&mut self, buf: &[u8]) -> io::Result<usize> {
         let idx = self.calls.len();
         let mut ans = self.scripted(idx).unwrap_or(Ans::All);
         if ans == Ans::All {
@@ -125,6 +132,18 @@ impl io::Write for ScriptSink {
             Ans::Fail(k) => Err(io::Error::new(k, "scripted failure")),
             Ans::Zero => Ok(0),
         }
+    }
+}
+
+impl io::Write for ScriptSink {
+    fn write(&mut self, buf: &[u8]) -> io::Result<usize> {
+        self.write_logical(buf)
+    }
+
+    fn write_vectored(&mut self, bufs: &[io::IoSlice<'_>]) -> io::Result<usize> {
+        self.vectored_calls += 1;
+        let all: Vec<u8> = bufs.iter().flat_map(|b| b.iter().cloned()).collect();
+        self.write_logical(&all)
     }
 
     fn flush(&mut self) -> io::Result<()> {
